@@ -243,6 +243,13 @@ def seq_concat(eng, a, b):
     if type_of(b) != ty:
         raise EngineError('concat of different sequence types')
     ea, eb = to_z3(a), to_z3(b)
+    nb = lit(z3.simplify(ty.len(eb)))
+    if isinstance(nb, int) and not isinstance(nb, bool) and 0 <= nb <= 4:
+        # a + [x, y]: the elements are appended one by one (exact, no quantifier)
+        arr, n = ty.arr(ea), ty.len(ea)
+        for q in range(nb):
+            arr = z3.Store(arr, n + q, ty.at(eb, z3.IntVal(q)))
+        return Box(ty, ty.mk(n + nb, arr))
     r = eng.fresh(ty, 'cat')
     i = z3.FreshInt('ci')
     la, lb = ty.len(ea), ty.len(eb)
@@ -818,6 +825,8 @@ def make_iter(eng, v):
         return IterV(len(v.cd), None, concrete=list(v.cd.keys()))
     if isinstance(v, Box) and v.ty is None:
         return IterV(0, None, concrete=[])
+    if isinstance(v, Obj) and 'iter' in v.__dict__:
+        return make_iter(eng, v.__dict__['iter'])       # iteration order of an abstract object, given by its contract
     ty = type_of(v)
     if ty is None:
         raise EngineError('cannot iterate %r' % (v,))
@@ -1579,7 +1588,7 @@ def str_method(name):
                 and not any(_has_sym(a) for a in args):
             r = getattr(s, name)(*args, **kw)
             if isinstance(r, list):
-                return new_list(eng, r) if r else Box(TSeq(TStr))
+                return ConcreteList(r)
             return r
         return sym_str_method(eng, name, s, args, kw)
     return m
